@@ -115,6 +115,7 @@ FLAVOURS = {
 # /repo sources each harness links (current working tree)
 HARNESS_SRCS = {
     "h_buffers": ["src/byte-buffer.c", "src/octet-ring.c", "src/ring-buffer-iter.c"],
+    "h_codec": ["src/byte-buffer.c", "src/variable-length-integer.c", "src/endpoints/core.c", "src/crc-16-arc.c"],
 }
 
 
@@ -402,6 +403,28 @@ def split_views(line):
     return line.strip(), None
 
 
+def view_equal(a, b):
+    """impl view `a` against model view `b`.  A model token `err:<x>` stands for
+    "some error" and matches any `err:<y>` of the implementation (the property
+    does not fix the errno); `ERR:<x>` demands exactly that errno."""
+    if a == b:
+        return True
+    if a is None or b is None or "rr:" not in b.lower():
+        return False
+    ta, tb = a.split(" "), b.split(" ")
+    if len(ta) != len(tb):
+        return False
+    for x, y in zip(ta, tb):
+        if x == y:
+            continue
+        if y.startswith("err:") and x.startswith("err:"):
+            continue
+        if y.startswith("ERR:") and x == "err:" + y[4:]:
+            continue
+        return False
+    return True
+
+
 def compare_case(impl, model):
     """Returns None when equal, else dict describing the first difference.
     kind = 'spec' when the property-level views differ (a concrete violation),
@@ -414,11 +437,13 @@ def compare_case(impl, model):
             continue
         al, ar = split_views(a)
         bl, br = split_views(b)
+        if view_equal(al, bl) and (ar is None and br is None or view_equal(ar, br)):
+            continue
         if a.startswith("crash:") or a == "hang" or a == "<no output>":
             kind = "spec"      # a crash/hang is never allowed by a property
             if bl in ("oob", "diverge") or bl.startswith("oob") or bl.startswith("diverge"):
                 kind = "spec"
-        elif ar is not None and br is not None and ar != br:
+        elif ar is not None and br is not None and not view_equal(ar, br):
             kind = "spec"
         elif ar is None or br is None:
             kind = "spec"      # single-view lines: the view is the property-level observable
